@@ -1,11 +1,13 @@
 import Driver.OpsQual
 import Driver.OpsAlign
+import Driver.OpsParser
 import Driver.OpsIndex
+import Driver.OpsKmer
 /-! Line-protocol driver: one operation per input line, one result per output line.
     Unknown or malformed operations print `bad-op` (never a default value). -/
 open Driver
 
-def handlers : List (List String → Option String) := [opsQual, opsAlign, opsIndex]
+def handlers : List (List String → Option String) := [opsQual, opsAlign, opsIndex, opsKmer, opsParser]
 
 def step (line : String) : String :=
   let toks := (line.trimAscii.toString.splitOn " ").filter (· ≠ "")
